@@ -926,6 +926,30 @@ func fuzzAttestation(f *testing.F) {
 		f.Add(attest.Attest(msg, ks[:2], st), uint8(2))
 	}
 	f.Add(make([]byte, 65), uint8(1))
+	// quorums over digests derived from the message (wrappers, other hash functions), whole and mixed with honest ones
+	sorted := append([]*attest.Key{}, ks[:3]...)
+	attest.SortByAddr(sorted)
+	for _, kind := range attest.DerivedKinds {
+		var all, mixed []byte
+		for i, k := range sorted {
+			d := attest.SignDigest(attest.DerivedDigest(kind, msg), k, attest.SigStyle{})
+			all = append(all, d...)
+			if i == 2 {
+				mixed = append(mixed, d...)
+			} else {
+				mixed = append(mixed, attest.Sign(msg, k, attest.SigStyle{})...)
+			}
+		}
+		f.Add(all, uint8(2))
+		f.Add(mixed, uint8(2))
+		f.Add(all[:65], uint8(0))
+	}
+	// recovery bytes outside {0,1,27,28}
+	for _, dv := range []byte{2, 27 + 2, 27 + 3, 35, 36, 254, 255} {
+		a := attest.Attest(msg, ks[:2], attest.SigStyle{})
+		a[64] += dv
+		f.Add(a, uint8(1))
+	}
 	f.Fuzz(func(t *testing.T, att []byte, thr uint8) {
 		th := uint32(thr%4) + 1
 		rv := attest.Verify(msg, att, strs, th)
